@@ -11,4 +11,5 @@ package metadata
 //@ func FromContext :: ctx -> md, ok
 //@   trusted
 //@   pure
+//@   ensures ok == hasMeta(ctx)
 //@   ensures ok ==> md == ctxMeta(ctx) && md != nil
